@@ -182,15 +182,15 @@ impl ErrorDisplay for PrettyPrint {
             }
             if self.options.compact {
                 let out = self.format_item_compact(parser, err);
-                print!("{}", out);
+                out!("{}", out);
             } else {
                 let out = self.format_item(parser, err);
-                print!("{}", out);
+                out!("{}", out);
             }
         }
         if errors_in_other_files > 0 {
             let end_str = if errors_in_other_files > 1 { "s" } else { "" };
-            println!("{} diagnostic{} found in other files. To see all errors, run with the `--all-files` option.", errors_in_other_files, end_str);
+            outln!("{} diagnostic{} found in other files. To see all errors, run with the `--all-files` option.", errors_in_other_files, end_str);
         }
     }
 }
@@ -256,6 +256,6 @@ impl ErrorDisplay for JSONPrint {
         // Print the results
         let out = TestCase { diagnostics: sub };
         let text = serde_json::to_string_pretty(&out).unwrap();
-        println!("{}", text);
+        outln!("{}", text);
     }
 }
